@@ -84,8 +84,8 @@ example : pickLevel (fun _ => 1) 100 exLevels [25] [30] = 2 := by decide +kernel
 example : pickLevel (fun _ => 1) 100 exLevels [15] [30] = 0 := by decide +kernel
 -- clear of level 1 but overlapping level 2: level 1
 example : pickLevel (fun _ => 1) 100 exLevels [55] [65] = 1 := by decide +kernel
--- too many grandparent bytes (level 2 file of 2000 bytes > 10 x 100): level 0
-example : pickLevel (fun _ => 2000) 100 [[], [], [exF 3 60 70], [], [], [], []] [55] [65] = 0 := by
+-- too many grandparent bytes (a huge level 2 file against a file size limit of 1): level 0
+example : pickLevel (fun _ => 1000000000000) 1 [[], [], [exF 3 60 70], [], [], [], []] [55] [65] = 0 := by
   decide +kernel
 
 end Rain.Props.FlushLevel
